@@ -28,7 +28,10 @@ RULE = ("all label assignments over the per-dtype limit alphabet {1, max, "
         "triples must raise NotImplementedError; one downscaler instance fed "
         "chunks of 3 different data types in every order; all ordered pairs of "
         "11 get_downscaler configurations (explicit or auto-selected method "
-        "x info type x outside value) alive together, each then used. One evaluation = one "
+        "x info type x outside value) alive together, each then used; single calls on arrays beyond the "
+        "exhaustive alphabets: blocks of 256-512 voxels with vote counts "
+        "around 256, arrays of more than 32^3 and more than 2^20 voxels "
+        "(numpy-integer references). One evaluation = one "
         "downscale call; non-trivial = some factor > 1 and the array is not "
         "constant.")
 ASSUMPTIONS = [
@@ -333,6 +336,159 @@ def _run_instances(col):
                 "configs": [["auto", "image", 7.0], ["average", None, None]]})
 
 
+# ---- arrays and factors beyond the exhaustive alphabets -------------------
+def _ref_blocks(a, factors, pad_value):
+    """(Z,Y,X) int array -> (oz,oy,ox,fz*fy*fx) int64 blocks and a validity
+    mask; overhanging voxels are edge values (pad_value None) or pad_value"""
+    fx, fy, fz = factors
+    Z, Y, X = a.shape
+    oz, oy, ox = -(-Z // fz), -(-Y // fy), -(-X // fx)
+    pz, py, px = oz * fz - Z, oy * fy - Y, ox * fx - X
+    b = a.astype(np.int64) if a.dtype.kind in "iu" else a.astype(np.float64)
+    valid = np.ones(a.shape, dtype=bool)
+    if pad_value is None:
+        b = np.pad(b, ((0, pz), (0, py), (0, px)), mode="edge")
+    else:
+        b = np.pad(b, ((0, pz), (0, py), (0, px)), mode="constant",
+                   constant_values=pad_value)
+    valid = np.pad(valid, ((0, pz), (0, py), (0, px)), mode="constant")
+
+    def blocks(v):
+        return v.reshape(oz, fz, oy, fy, ox, fx).transpose(
+            0, 2, 4, 1, 3, 5).reshape(oz, oy, ox, fz * fy * fx)
+    return blocks(b), blocks(valid)
+
+
+def _ref_average_int(a, factors, outside):
+    """exact integer mean, round half to even (integer input types and an
+    integer outside value only)"""
+    blk, _ = _ref_blocks(a, factors, None if outside is None
+                         else int(outside))
+    n = blk.shape[-1]
+    sm = blk.sum(axis=-1)
+    q, r = np.divmod(sm, n)
+    up = (2 * r > n) | ((2 * r == n) & (q % 2 == 1))
+    return (q + up).astype(a.dtype)
+
+
+def _ref_majority(a, factors):
+    blk, valid = _ref_blocks(a, factors, 0)
+    oz, oy, ox, n = blk.shape
+    out = np.zeros((oz, oy, ox), dtype=a.dtype)
+    fb, fv = blk.reshape(-1, n), valid.reshape(-1, n)
+    flat = out.reshape(-1)
+    for i in range(fb.shape[0]):
+        vals, counts = np.unique(fb[i][fv[i]], return_counts=True)
+        flat[i] = vals[np.argmax(counts)]    # first maximum = smallest label
+    return out
+
+
+def _big_arrays():
+    """(name, dtype, (Z,Y,X) array) - deterministic contents"""
+    out = []
+    # counts beyond 255 / 256 inside one 8x8x8 block (uint8 and uint16)
+    for counts in ((300, 212), (256, 256), (257, 255), (511, 1),
+                   (170, 171, 171), (212, 300)):
+        labs = np.concatenate([np.full(c, 2 * k + 1 if counts != (212, 300)
+                                       else 9 - 2 * k)
+                               for k, c in enumerate(counts)])
+        for dt in ("uint8", "uint16"):
+            out.append(("votes-%s" % "-".join(map(str, counts)), dt,
+                        labs.astype(dt).reshape(8, 8, 8)))
+            out.append(("votes-2blocks-%s" % "-".join(map(str, counts)), dt,
+                        np.concatenate([labs, labs[::-1]]).astype(dt)
+                        .reshape(8, 8, 16)))
+    # more than 32^3 voxels, few labels (ties are frequent)
+    n = 34 * 34 * 66
+    lab = ((np.arange(n) * 2654435761 % 4294967291) % 3 + 1)
+    out.append(("ties-34x34x66", "uint32",
+                lab.astype("uint32").reshape(34, 34, 66)))
+    out.append(("ties-40x33x35", "uint8",
+                lab[:40 * 33 * 35].astype("uint8").reshape(40, 33, 35)))
+    # more than 2^20 voxels, plane size not a power of two
+    n = 4 * 550 * 600
+    out.append(("ramp-4x550x600", "uint8",
+                (np.arange(n) * 7 % 251).astype("uint8")
+                .reshape(4, 550, 600)))
+    out.append(("ramp-5x301x700", "uint16",
+                (np.arange(5 * 301 * 700) * 977 % 65521).astype("uint16")
+                .reshape(5, 301, 700)))
+    out.append(("ramp-7x262x400", "uint8",
+                (np.arange(7 * 262 * 400) * 13 % 241).astype("uint8")
+                .reshape(7, 262, 400)))
+    return out
+
+
+def _run_big(col, only=None):
+    """single calls on arrays / factors beyond the exhaustive alphabets:
+    blocks of up to 512 voxels (vote counts beyond 255), arrays of more
+    than 32^3 and more than 2^20 voxels; numpy-integer references"""
+    for k, (name, dt, a) in enumerate(_big_arrays()):
+        if only is not None and k % 6 != only:
+            continue
+        if name.startswith("votes"):
+            todo = [("majority", (8, 8, 8), None), ("majority", (4, 8, 8),
+                                                    None),
+                    ("stride", (8, 8, 8), None)]
+        elif name.startswith("ties"):
+            todo = [("majority", (2, 2, 2), None), ("majority", (2, 1, 2),
+                                                    None),
+                    ("majority", (3, 2, 1), None), ("stride", (2, 2, 2),
+                                                    None),
+                    ("average", (2, 2, 2), None), ("average", (2, 2, 2),
+                                                   7.0)]
+        else:
+            todo = [("average", (2, 2, 2), None), ("average", (2, 2, 2),
+                                                   0.0),
+                    ("average", (1, 2, 2), 255.0), ("stride", (2, 2, 2),
+                                                    None),
+                    ("majority", (2, 2, 2), None)]
+        for method, factors, outside in todo:
+            case = {"kind": "big", "array": name, "dtype": dt,
+                    "method": method, "factors": list(factors),
+                    "outside": outside}
+            chunk = np.stack([a, a[::-1, ::-1, ::-1]])
+            if name.startswith("ramp-4x") or method == "stride":
+                chunk = chunk[:1]         # one channel
+            try:
+                with np.errstate(all="ignore"):
+                    res = _downscaler(method, outside).downscale(
+                        chunk, factors)
+            except Exception as exc:
+                col.ev(1, 1, method + "-exception")
+                col.violation("C07/%s/exception/%s" % (
+                    method, type(exc).__name__), case, "downscaled array",
+                    repr(exc)[:300])
+                continue
+            wants = []
+            for ch in chunk:
+                if method == "average":
+                    wants.append(_ref_average_int(ch, factors, outside))
+                elif method == "majority":
+                    wants.append(_ref_majority(ch, factors))
+                else:
+                    fx, fy, fz = factors
+                    wants.append(ch[::fz, ::fy, ::fx])
+            want = np.stack(wants)
+            if res.shape != want.shape or res.dtype != want.dtype:
+                col.ev(1, 1, method + "-bad-shape")
+                col.violation("C07/%s/shape-or-dtype" % method, case,
+                              "%s %r" % (want.dtype, want.shape),
+                              "%s %r" % (res.dtype, res.shape))
+            elif not np.array_equal(res, want):
+                bad = np.argwhere(res != want)
+                col.ev(1, 1, method + "-wrong")
+                col.violation("C07/%s/wrong-value/%s" % (method, dt), case,
+                              "(c,z,y,x)=%s: %r" % (bad[0].tolist(),
+                                                    want[tuple(bad[0])]),
+                              "%r (%d voxels differ)" % (
+                                  res[tuple(bad[0])], len(bad)))
+            else:
+                col.ev(1, 1, method + "-ok")
+    col.sample({"kind": "big", "array": "votes-300-212", "dtype": "uint8",
+                "method": "majority", "factors": [8, 8, 8]})
+
+
 def units(tier):
     u = []
     for dtype in DTYPES:
@@ -352,6 +508,8 @@ def units(tier):
     u.append({"kind": "reject"})
     u.append({"kind": "reuse"})
     u.append({"kind": "instances"})
+    for k in range(6):
+        u.append({"kind": "big", "part": k})
     return u
 
 
@@ -421,6 +579,8 @@ def run_unit(u):
         _run_reuse(col)
     elif u["kind"] == "instances":
         _run_instances(col)
+    elif u["kind"] == "big":
+        _run_big(col, u.get("part"))
     else:
         for method, fs in BAD_FACTORS.items():
             for f in fs:
@@ -445,6 +605,12 @@ def replay(case):
     if case.get("kind") == "reject":
         _eval_reject(col, case["method"], case["factors"])
         return col.records()
+    if case.get("kind") == "big":
+        _run_big(col)
+        return [r for r in col.records()
+                if all(r["case"].get(k) == case.get(k)
+                       for k in ("array", "dtype", "method", "factors",
+                                 "outside"))]
     if case.get("kind") == "instances":
         _run_instance_pair(col, tuple(case["configs"][0]),
                            tuple(case["configs"][1]))
